@@ -46,6 +46,15 @@ def gen_case(rng, allow=None, n_max=6, deviations=False):
             # known C08 finding: surplus may stay buffered and poison the next exchange on the connection;
             # an overrun is therefore always the last exchange of a WARC workload sequence
             break
+    if rng.random() < 0.05 and seq[-1]['classes']['framing'] not in ('overrun', 'interim'):
+        # a sloppy server: an empty line in front of the status line of the last response (a client may skip it or give
+        # the exchange up; what it archives and indexes must be consistent either way)
+        last = seq[-1]
+        last['wire'] = b'\r\n' + last['wire']
+        last['head_len'] += 2
+        last['boundaries'] = [1, 2, 3] + [b + 2 for b in last['boundaries']]
+        last['classes'] = dict(last['classes'], style='blank-line-first')
+        last['then'] = 'eof'
     case = {'config': gen_config(rng), 'seq': seq, 'seg_seed': rng.randrange(1 << 30),
             'seg_mode': rng.choice(['whole', 'bytes', 'random', 'random', 'cut'])}
     if seq[-1]['classes']['framing'] in ('close', 'length') and rng.random() < 0.15:
